@@ -171,6 +171,76 @@ func (v *victim) census() (int, string, bool) {
 	return n, st, true
 }
 
+// heap asks the victim for its live heap (after a collection), in bytes.
+func (v *victim) heap() (int64, bool) {
+	if _, err := fmt.Fprintln(v.in, "heap"); err != nil {
+		return 0, false
+	}
+	l, err := v.readLine(30 * time.Second)
+	if err != nil || !strings.HasPrefix(l, "heap ") {
+		return 0, false
+	}
+	n, _ := strconv.ParseInt(strings.TrimPrefix(l, "heap "), 10, 64)
+	return n, true
+}
+
+// forgeVersionConn rewrites the record-layer version of the first record a TLS client writes (crypto/tls does
+// not look at it; the proxy's ClientHello capture refuses it).
+type forgeVersionConn struct {
+	net.Conn
+	ver  uint16
+	done bool
+}
+
+func (c *forgeVersionConn) Write(b []byte) (int, error) {
+	if !c.done && len(b) >= 5 && b[0] == 0x16 {
+		c.done = true
+		b = append([]byte{}, b...)
+		b[1], b[2] = byte(c.ver>>8), byte(c.ver)
+	}
+	return c.Conn.Write(b)
+}
+
+// uploadOnOddRecordVersion: a client whose first record carries a version the capture refuses completes the
+// handshake and uploads `total` bytes for as long as it is allowed to; it then keeps the connection open and
+// reports how many bytes it could write. What the proxy RETAINS meanwhile is measured by the caller.
+func uploadOnOddRecordVersion(addr string, ver uint16, total int, written chan<- int, hold <-chan struct{}) int {
+	sent := 0
+	defer func() {
+		select {
+		case written <- sent:
+		default:
+		}
+	}()
+	d := net.Dialer{Timeout: 5 * time.Second}
+	c, err := d.Dial("tcp", addr)
+	if err != nil {
+		return 0
+	}
+	defer c.Close()
+	var under net.Conn = c
+	if ver != 0 {
+		under = &forgeVersionConn{Conn: c, ver: ver}
+	}
+	t := tls.Client(under, &tls.Config{InsecureSkipVerify: true, ServerName: "front.example", NextProtos: []string{"http/1.1"}})
+	c.SetDeadline(time.Now().Add(60 * time.Second))
+	if t.Handshake() != nil {
+		return 0
+	}
+	fmt.Fprintf(t, "POST /upload HTTP/1.1\r\nHost: front.example\r\nContent-Length: %d\r\n\r\n", total)
+	chunk := bytes.Repeat([]byte("m"), 256<<10)
+	for sent < total-len(chunk) { // the last chunk is held back: the exchange stays in flight
+		n, err := t.Write(chunk)
+		sent += n
+		if err != nil {
+			break
+		}
+	}
+	written <- sent
+	<-hold
+	return sent
+}
+
 func (v *victim) stop() {
 	fmt.Fprintln(v.in, "quit")
 	select {
@@ -936,6 +1006,35 @@ func main() {
 				}
 				if !check(tc) && !v.alive() {
 					return
+				}
+			}
+			// memory: what the proxy retains must not grow with the bytes one connection sends. A client
+			// whose ClientHello capture fails (record version 0x0305) but whose handshake succeeds uploads
+			// 64 MiB; the live heap of the victim is measured while that connection is still open.
+			if w == 0 {
+				for _, ver := range []uint16{0, 0x0305} { // an ordinary client, and one whose ClientHello capture fails
+					h0, ok := v.heap()
+					if !ok {
+						break
+					}
+					hold := make(chan struct{})
+					written := make(chan int, 2)
+					go uploadOnOddRecordVersion(v.addr, ver, 64<<20, written, hold)
+					sent := 0
+					select {
+					case sent = <-written: // everything but the last chunk is written (or the client was refused)
+					case <-time.After(60 * time.Second):
+					}
+					h1, ok1 := v.heap() // the connection, if it was served at all, is still open
+					close(hold)
+					run.Eval(1)
+					run.Add("memory_retention_checks", 1)
+					run.Add("memory_retention_bytes_uploaded", int64(sent))
+					run.Set(fmt.Sprintf("memory_retention_check_record_version_%#04x", ver), map[string]any{"upload_bytes_written_by_client": sent, "live_heap_before": h0, "live_heap_during": h1})
+					if ok1 && h1-h0 > 32<<20 {
+						run.Violation("memory-grows-with-client-bytes", map[string]any{"client_wrote": sent, "heap_before": h0, "heap_during": h1, "first_record_version": fmt.Sprintf("%#04x", ver)},
+							"a client (first TLS record version %#04x; 0 = as crypto/tls writes it) wrote %d bytes on one connection; the proxy's live heap (after a collection, connection still open) grew from %d to %d bytes", ver, sent, h0, h1)
+					}
 				}
 			}
 			// batches
